@@ -1011,7 +1011,7 @@ NOT_APPLICABLE = {}
 
 PROPS = {
     "C01": dict(
-        level="proof", module="Rsdns.Props.C01",
+        level="proof", module="Rsdns.Props.C01", modules=["Rsdns.Props.C01", "Rsdns.Props.PinCursor", "Rsdns.Props.PinLabels"],
         technique="Lean 4 theorems (no panic / no out-of-buffer access for every decoding entry point, well-founded termination, step bound) + differential correspondence with crash/guard-page oracles",
         level_text="Theorems over the Lean model for all byte strings: names (read/skip/iterate), NameRef::eq, all 17 RDATA decoders "
                    "return a value or an error from any in-buffer cursor; every MessageReader call history is free of out-of-buffer access "
@@ -1031,7 +1031,7 @@ PROPS = {
                     "implementation is a violation independent of the model.",
     ),
     "C04": dict(
-        level="proof", module="Rsdns.Props.C04", modules=["Rsdns.Props.C04", "Rsdns.Props.C04Local"],
+        level="proof", module="Rsdns.Props.C04", modules=["Rsdns.Props.C04", "Rsdns.Props.C04Local", "Rsdns.Props.PinCursor"],
         technique="Lean 4 theorems (RDLENGTH exactness for all 17 decoders, raw access, next-record position, independence of every byte behind the RDATA) + differential correspondence",
         level_text="For every message, cursor and announced RDLENGTH: a successful typed read consumed exactly RDLENGTH bytes and "
                    "closed its window; raw access returns exactly msg[p..p+rdlen); the next header starts right after; the outcome of a typed "
@@ -1040,12 +1040,14 @@ PROPS = {
                    "Correspondence: every type with RDLENGTH off by -3..+3 and parseable neighbours.",
         level_note="Trusted: Lean kernel; model of cursor.rs window discipline and rfc1035.rs/rfc3596.rs decoders (validated by the "
                    "`rdata` and `reader` streams each run).",
-        streams=[dict(name="rdata"), dict(name="reader", quick=8000)],
+        streams=[dict(name="rdata"), dict(name="reader", quick=8000),
+                 # the iterator API reads the "next record" too: ground truth of where every record starts
+                 dict(name="truth", quick=5000), dict(name="views", quick=5000)],
         explanation="C04: rdata_exact / raw_exact / next_after_data / rdata_local / data_local theorems; stream `rdata` drives read_rr_data::<D> for the 17 D "
                     "through the hook with RDLENGTH deltas.",
     ),
     "C05": dict(
-        level="proof", module="Rsdns.Props.C05",
+        level="proof", module="Rsdns.Props.C05", modules=["Rsdns.Props.C05", "Rsdns.Props.PinNames"],
         technique="Lean 4 theorems (parsers = validator = wire encoder on every string; encode→decode returns the canonical spelling; every decoded name is valid and re-parses to itself) + round-trip oracle on real code",
         level_text="Proved for all strings and all messages: both parsers accept exactly what check_name_bytes accepts, never panic, "
                    "and yield the canonical spelling (parse_agree); the wire encoder accepts exactly the same strings "
@@ -1194,11 +1196,13 @@ PROPS = {
         technique="Lean 4 theorems about the UDP receive filter and loop (soundness, first match, junk skipped) + four real clients against scripted decoy sequences",
         level_text="For all datagram sequences: an accepted datagram has the query's ID and exactly one question equal to the asked one "
                    "(case-insensitively); the loop returns the first such datagram with exactly its bytes and skips everything else. "
+                   "The two tests of the filter (ID; type && class && name) are regenerated from udp_receive_loop of BOTH client sources "
+                   "on every run and evaluated by the model (async_filter_is_std, filter_closed_form). "
                    "The four real clients are run against scripted decoys over loopback and compared with the model.",
         level_note="Datagrams longer than the receive buffer arrive truncated (kernel; assumed). Trusted: Lean kernel; model of "
                    "udp_receive_loop (std + template) validated by the `c12` stream.",
         streams=[dict(name="c12")],
-        explanation="C12: accept_sound, loop_first, junk_ignored, loop_complete, reject_short.",
+        explanation="C12: accept_sound, loop_first, junk_ignored, loop_complete, reject_short, async_filter_is_std, filter_closed_form.",
     ),
     "C13": dict(
         level="proof", module="Rsdns.Props.C13",
@@ -1224,9 +1228,11 @@ PROPS = {
                    "bytes and of close/stall only: exactly the N announced bytes, BufferTooShort(N) without reading the body, EOF on early "
                    "close, never a short success. Real clients: N around buffer limits, splits inside the prefix, 1-byte segments, early "
                    "close at every position class, trailing bytes; guard-paged caller buffer.",
-        level_note="Assumed: read_exact/write_all of std, tokio, async-std, smol satisfy their documented contracts.",
+        level_note="Assumed: read_exact/write_all of std, tokio, async-std, smol satisfy their documented contracts. The prefix value "
+                   "(u16::from_be_bytes) and the bound test are regenerated from tcp_exchange of both client sources and evaluated by the "
+                   "model (async_framing_is_std, framing_closed_form).",
         streams=[dict(name="c14"), dict(name="c16")],
-        explanation="C14: readExact_spec, tcp_closed_form, tcp_split_invariant, tcp_exact, tcp_short_buffer, tcp_early_close.",
+        explanation="C14: readExact_spec, tcp_closed_form, tcp_split_invariant, tcp_exact, tcp_short_buffer, tcp_early_close, async_framing_is_std, framing_closed_form.",
     ),
     "C15": dict(
         level="proof", module="Rsdns.Props.C15",
@@ -1285,7 +1291,7 @@ PROPS = {
         rule="the finite set of Send/Sync assertions in harness/typecheck/src/lib.rs is checked exhaustively by rustc; non-trivial = every assertion",
     ),
     "C08": dict(
-        level="proof", module="Rsdns.Props.C08", modules=["Rsdns.Props.C08", "Rsdns.Props.C08Views"],
+        level="proof", module="Rsdns.Props.C08", modules=["Rsdns.Props.C08", "Rsdns.Props.C08Views", "Rsdns.Props.PinNames"],
         technique="Lean 4 simulation proof between the cursor-style reader and the iterator API on arbitrary bytes (iter_agrees_with_pass) + theorems (NameRef::eq = equality of the decoded names, same-offset shortcut included; Name/InlineName readers are the same function; skip succeeds wherever read does, at the same position) + cross-view agreement oracle on the real code",
         level_text="Proved for all inputs: NameRef::eq on two names of one message — including its same-offset shortcut, whose soundness "
                    "rests on the uniqueness of the RFC expansion at a position — answers exactly what == answers on the decoded names "
@@ -1307,7 +1313,7 @@ PROPS = {
         explanation="C08: iter_agrees_with_pass, data_eq_dataAt, dataBytes_eq_dataBytesAt (Props/C08Views.lean), nameref_eq_decoded, nameRefEqLoop_spec, eqLabels_iff_nameEq, read_kinds_agree, skip_of_read, walk_congr_mode; streams `views` and `nameeq`.",
     ),
     "C10": dict(
-        level="proof", module="Rsdns.Props.C10",
+        level="proof", module="Rsdns.Props.C10", modules=["Rsdns.Props.C10", "Rsdns.Props.PinCursor"],
         technique="Lean 4 invariant proof over all call histories (full view = whole message) + purity oracle against a fresh reader",
         level_text="Invariant by induction over arbitrary call histories: the reader cursor's full view is the whole message, hence "
                    "record_data_at / record_data_bytes_at / name_ref_at equal the decoder run on a fresh cursor — also in the error "
@@ -1318,23 +1324,29 @@ PROPS = {
         explanation="C10: at_closed_form / at_pure theorems over Reach; oracle `IMPURE!` in the harness.",
     ),
     "C17": dict(
-        level="proof", module="Rsdns.Props.C17",
+        level="proof", module="Rsdns.Props.C17", modules=["Rsdns.Props.C17", "Rsdns.Props.PinCursor"],
         technique="Lean 4 theorems (no UB for arbitrary call histories with arbitrary markers; cursor primitives from any position) + checked-build / guard-page oracles",
         level_text="No protocol hypothesis: every list of public MessageReader calls with arbitrary markers is free of the model's `ub` "
                    "outcome (an unchecked access whose precondition fails); cursor primitives, name readers, NameRef::eq across two "
                    "messages and read_rr_data are safe from any position. Implementation-side: checked build (std unsafe-precondition "
                    "checks abort), guard pages, returned-slice range check.",
-        level_note="Panics at documented debug assertions and checked counter arithmetic are allowed by this property and by the "
+        level_note="Also: name_cmp_no_ub (Ord::cmp of both name types with its two get_unchecked(i) modelled as possible `ub`: never out of "
+                   "range, for any two byte strings), parse_no_ub (text parsers), and Props/PinCursor.lean (the seven bounds tests of "
+                   "cursor.rs/macros.rs regenerated from the source equal the model's). "
+                   "Panics at documented debug assertions and checked counter arithmetic are allowed by this property and by the "
                    "theorem (`noUB`). Trusted: Lean kernel; model of every unchecked site in cursor.rs/macros.rs/utils.rs.",
         streams=[dict(name="readerx"), dict(name="xmark"), dict(name="reader", quick=8000, impl_oracle=reader_oracle),
                  dict(name="rdata", quick=10000), dict(name="nameeq", quick=6000),
-                 dict(name="query", quick=10000, impl_oracle=query_oracle), dict(name="cmp", quick=10000)],
+                 dict(name="query", quick=10000, impl_oracle=query_oracle), dict(name="cmp", quick=10000),
+                 # the clients lend out a `Vec` whose length was forced with `set_len`: what is parsed must be
+                 # the received bytes only, never the uninitialised or stale tail
+                 dict(name="c16")],
         explanation="C17: api_no_ub and companions; `readerx` = arbitrary call orders with stale markers; the write side "
                     "(the unchecked stores of the query encoder, reached from every client's query calls) is C11.writer_safe "
                     "with the `query` stream on tight buffers.",
     ),
     "C03": dict(
-        level="proof", module="Rsdns.Props.C03",
+        level="proof", module="Rsdns.Props.C03", modules=["Rsdns.Props.C03", "Rsdns.Props.PinLabels"],
         technique="Lean 4 theorems (soundness vs RFC 1035 §4.1.4 expansion, rejection, completeness) + differential correspondence",
         level_text="Machine-checked theorems over the Lean model of labels_loop! for all messages, positions and pointer graphs "
                    "(no bound on sizes or hops beyond the code's own 32): soundness of read/skip/iterate against the RFC expansion "
@@ -1342,7 +1354,10 @@ PROPS = {
                    "The model is tied to /repo by generated constants/masks and by the `name` correspondence stream.",
         level_note="Trusted: Lean kernel; axioms ⊆ {propext, Classical.choice, Quot.sound}; the hand-written model of "
                    "labels.rs/labels/macros.rs/cursor.rs (validated by correspondence on every run); tools/extract.py; harness.",
-        streams=[dict(name="name"), dict(name="names", quick=15000)],
+        streams=[dict(name="name"), dict(name="names", quick=15000),
+                 # comparing two names in place follows the same pointers: its verdict must be the verdict on
+                 # the two expanded label sequences (prefix-related names, shared suffixes, root)
+                 dict(name="nameeq", quick=6000, impl_oracle=nameeq_oracle)],
         explanation="Theorems: soundness of read/skip/iterate against the RFC 1035 §4.1.4 expansion relation incl. resume "
                     "position, the four rejection theorems, and completeness for backward-only (conforming) layouts; "
                     "correspondence: stream `name` through all four instantiations of labels_loop!.",
